@@ -25,6 +25,9 @@ Frame ==
     [] Ev.e = "DELIVER_GOAWAY" -> UNCHANGED vars
     [] Ev.e = "RET" ->
          /\ UNCHANGED vars
+         \* C03: every complete transmission of the caller's request - a transparent re-send on another
+         \* connection included - carried exactly the caller's body
+         /\ ("reqok" \in DOMAIN Ev) => Ev.reqok
          /\ CASE Ev.sid = 0 /\ Ev.out \in {"ok", "abandoned"} -> Ev.own   \* served on another connection
               [] Ev.sid = 0 /\ Ev.out = "cancelled" -> TRUE
               [] Ev.sid # 0 /\ Ev.retried -> RetErr(Ev.sid, TRUE)         \* whatever the final outcome was
